@@ -73,6 +73,13 @@ def plan(tier):
             {"kind": "big", "pf": "rep", "n": 6000}]
 
 
+T0 = time.time()
+
+
+def note(msg):
+    print("[C07 %6.1fs] %s" % (time.time() - T0, msg), flush=True)
+
+
 def tlc(mode, lang, env, seed, timeout):
     e = dict(JAVA_ENV)
     e.update(env)
@@ -80,6 +87,7 @@ def tlc(mode, lang, env, seed, timeout):
     r = vlib.tlc("ExprGrammar", "ExprGrammar.cfg", env=e, workers=1, timeout=timeout, xmx="10g", extra=("-seed", str(seed)))
     if not r.ok:
         raise vlib.InfraError("model failure in ExprGrammar.tla mode=%s lang=%s (rc=%s)\n%s" % (mode, lang, r.rc, r.out[-3000:]))
+    note("TLC %s %s done in %.1fs" % (mode, lang, r.wall))
     return r
 
 
@@ -239,6 +247,7 @@ def run_lang(lang, tier, seed, work, planpath):
         with concurrent.futures.ThreadPoolExecutor(NPROC) as ex:
             for o in ex.map(lambda ch: observe(ch, lang), chunks):
                 obs += o
+        note("cppcheck %s shard %d: %d statements observed" % (lang, si, len(obs)))
         spath = os.path.join(work, "shard.%s.%d.ndjson" % (lang, si))
         opath = os.path.join(work, "obs.%s.%d.ndjson" % (lang, si))
         bpath = os.path.join(work, "bad.%s.%d.ndjson" % (lang, si))
